@@ -283,8 +283,8 @@ def run(prop, tier):
         if prop == "C19":
             cfg = "Sql_%s_where.cfg" % b.kind
             r = vlib.run_tlc("Sql", cfg, timeout=1500, heap="6g",
-                             cfg_text=vlib.cfg_text(tlc_consts(b, 2, 12 if quick else 3, salt, 1, [1]), spec="SpecW",
-                                                    invariants=["PureRefinesDecl", "DeviationsExplainAllW", "EmitW"]))
+                             cfg_text=vlib.cfg_text(tlc_consts(b, 2, 40 if quick else 3, salt, 1, [1]), spec="SpecW",
+                                                    invariants=["PureRefinesDecl", "DeviationsExplainAllW", "GuardsSufficeW", "EmitW"]))
             vlib.tlc_ok(r, cfg)
             if r["violated"]:
                 raise Undecided("MODEL-DRIFT: %s violates %s in the model\n%s" % (cfg, r["violated"], r["out"][-3000:]))
@@ -296,7 +296,7 @@ def run(prop, tier):
                 cfg = "Sql_%s_where3.cfg" % b.kind
                 r = vlib.run_tlc("Sql", cfg, timeout=1500, heap="6g", simulate=4000, depth=4, workers=1, seed_=rng.randrange(1, 2 ** 31),
                                  cfg_text=vlib.cfg_text(tlc_consts(b, 3, 1, salt, 1, [1]), spec="SpecW",
-                                                        invariants=["PureRefinesDecl", "DeviationsExplainAllW", "EmitW"]))
+                                                        invariants=["PureRefinesDecl", "DeviationsExplainAllW", "GuardsSufficeW", "EmitW"]))
                 vlib.tlc_ok(r, cfg)
                 if r["violated"]:
                     raise Undecided("MODEL-DRIFT: %s violates %s in the model\n%s" % (cfg, r["violated"], r["out"][-3000:]))
@@ -307,7 +307,7 @@ def run(prop, tier):
             classes = [1, 2, 3] + ([4] if b.kind == "variable" else [])
             r = vlib.run_tlc("Sql", cfg, timeout=1500, heap="6g",
                              cfg_text=vlib.cfg_text(tlc_consts(b, 1, 1, salt, 60 if quick else 6, classes), spec="Spec20",
-                                                    invariants=["PureRefinesDecl20", "DeviationsExplainAll20", "WhereIsClean20", "Emit20"]))
+                                                    invariants=["PureRefinesDecl20", "DeviationsExplainAll20", "GuardsSuffice20", "WhereIsClean20", "Emit20"]))
             vlib.tlc_ok(r, cfg)
             if r["violated"]:
                 raise Undecided("MODEL-DRIFT: %s violates %s in the model\n%s" % (cfg, r["violated"], r["out"][-3000:]))
@@ -391,9 +391,10 @@ def run(prop, tier):
         replay = {"check": "sql", "prop": prop, "sql": sql, "bucket": b.describe(), "case": c, "seed": vlib.seed(),
                   "setup": [s for s in setup if s["op"] == "write" and s["buckets"][0]["key"] == b.key]}
         if prop == "C19":
-            verdict, detail = judge_select(b, o[0], {"rows": c["expect"], "cols": STAR}, {"rows": c["known"], "cols": STAR}, True)
+            verdict, detail = judge_select(b, o[0], {"rows": c["expect"], "cols": STAR},
+                                           [(a["devs"], {"rows": a["ans"], "cols": STAR}) for a in c["alts"]], True)
         elif tgt is None:
-            verdict, detail = judge_select(b, o[0], c["expect"], c["known"], c["star"])
+            verdict, detail = judge_select(b, o[0], c["expect"], [(a["devs"], a["ans"]) for a in c["alts"]], c["star"])
         else:
             counts["inserts"] += 1
             verdict, detail = judge_insert(b, o, c, tgt, counts)
@@ -402,16 +403,17 @@ def run(prop, tier):
             counts["zero_column_responses"] += 1
         if verdict == "ok":
             pass
-        elif verdict == "known" and c["hit"]:
+        elif verdict == "bad":
+            res.violation("%s\n  returned %s" % (sql, detail), replay)
+        else:
+            # the answer is the one the model predicts under the listed deviations `verdict` (all exercised by this statement)
             counts["deviating_as_listed"] += 1
-            for d in c["hit"]:
+            for d in verdict:
                 per_dev[d] = per_dev.get(d, 0) + 1
                 if d in known:
                     res.known_finding(known[d], {"sql": sql, "got": detail[:200]})
                 else:
                     res.violation("deviation %s observed but not listed as known for %s: %s -> %s" % (d, prop, sql, detail), replay)
-        else:
-            res.violation("%s\n  returned %s" % (sql, detail), replay)
         res.sample({"sql": sql, "expect_rows": c["expect"] if prop == "C19" else c["expect"]["rows"], "bucket": b.key}, limit=4)
     res.cov.update(counts)
     res.cov["known_deviation_hits"] = per_dev
@@ -424,15 +426,17 @@ def run(prop, tier):
 STAR = [{"n": x, "s": x} for x in ("Epoch", "A", "B", "C")]
 
 
-def judge_select(b, o, expect, known, star):
+def judge_select(b, o, expect, alts, star):
+    """'ok' | 'bad' | list of deviations whose predicted answer the real code gave"""
     real = table_of(o)
     exp = expected_table(b, expect, star)
     if same_table(real, exp):
         return "ok", ""
     want = "the property demands rows %s = %s" % (expect["rows"], json.dumps(exp)[:500])
     got = real if isinstance(real, str) else "columns %s rows %s" % (real[0], json.dumps(real[1])[:600])
-    if same_table(real, expected_table(b, known, star)):
-        return "known", got + "; " + want
+    for devs, ans in sorted(alts, key=lambda x: len(x[0])):
+        if devs and same_table(real, expected_table(b, ans, star)):
+            return sorted(devs), got + "; " + want
     return "bad", got + "; " + want
 
 
